@@ -90,6 +90,18 @@ pub fn entry_points(bytes: &[u8]) -> Vec<(&'static str, V)> {
                 Err(e) => se(e),
             },
         ));
+        // the same stream handed over in fragments (a reader that yields at most 7 bytes per
+        // call): a deserialiser must not depend on how the bytes arrive
+        struct Frag<'a>(&'a [u8]);
+        impl<'a> ark_serialize::Read for Frag<'a> {
+            fn read(&mut self, buf: &mut [u8]) -> std::io::Result<usize> {
+                let n = buf.len().min(7).min(self.0.len());
+                buf[..n].copy_from_slice(&self.0[..n]);
+                self.0 = &self.0[n..];
+                Ok(n)
+            }
+        }
+        v.push(("Element::deserialize_compressed (fragmented reader)", match Element::deserialize_compressed(Frag(bytes)) { Ok(e) => V::Ok(el_coords(&e)), Err(e) => se(e) }));
         v.push((
             "Encoding::deserialize_compressed then Element::try_from",
             match Encoding::deserialize_compressed(bytes) {
@@ -131,12 +143,21 @@ pub fn eval(dc: &Decaf, mode: Mode, bytes: &[u8], origin: &str) -> Outcome {
             }
         }
     };
-    let eps = entry_points(bytes);
     if mode == Mode::C01b {
         // only the round trip on accepted strings
         if bytes.len() != 32 {
             return Outcome::trivial(class);
         }
+        // cheap pre-filter: a string the primary entry point rejects has nothing to re-encode
+        // (agreement of the entry points with each other is C02's business)
+        let mut a32 = [0u8; 32];
+        a32.copy_from_slice(bytes);
+        if Encoding(a32).vartime_decompress().is_err() {
+            return Outcome::trivial(class);
+        }
+    }
+    let eps = entry_points(bytes);
+    if mode == Mode::C01b {
         let accepted: Vec<&(&str, V)> = eps.iter().filter(|e| matches!(e.1, V::Ok(_))).collect();
         if accepted.is_empty() {
             return Outcome::trivial(class);
@@ -306,6 +327,16 @@ pub fn domain(dc: &Decaf, quick: bool) -> Vec<(Vec<u8>, &'static str)> {
         out.push((to32(&(&t + 1u32)).to_vec(), "2^k+1"));
     }
     out.push((vec![0xff; 32], "all ones"));
+    // s solved for so that the decoder's inverse-square-root argument has a structured
+    // 2-primary discrete log (valid encodings for even logs, non-square rejects for odd ones)
+    for (s, _) in crate::sqrtclass::decode_ss(dc, quick) {
+        out.push((to32(&s).to_vec(), "sqrt-class s"));
+    }
+    // boundary classes of the multi-limb canonicity comparison with q, with the three spare top
+    // bits clear and set
+    for x in crate::fields::cmp_family(&q, 32) {
+        out.push((to32(&x).to_vec(), "limb-wise neighbours of q"));
+    }
     {
         // pseudo-random 32-byte strings (top three bits cleared for half of them)
         let mut gsm = crate::fields::SplitMix(crate::fields::verif_seed() ^ 0xC02);
